@@ -59,6 +59,8 @@ enum CancelPoint {
     AwaitingResponse,
     /// registered, waiting for the writer lock held by a stalled writer (AsyncClient)
     AwaitingWriterLock,
+    /// the stalled writer itself is cancelled mid-frame while another call waits for the writer
+    MidWriteWithQueuedSibling,
 }
 
 fn scenarios(tier: Tier) -> Vec<Scenario> {
@@ -89,6 +91,8 @@ fn scenarios(tier: Tier) -> Vec<Scenario> {
         v.push(Scenario::Cancel { kind, point: CancelPoint::AwaitingResponse });
     }
     v.push(Scenario::Cancel { kind: Kind::Async, point: CancelPoint::AwaitingWriterLock });
+    v.push(Scenario::Cancel { kind: Kind::Async, point: CancelPoint::MidWriteWithQueuedSibling });
+    v.push(Scenario::Cancel { kind: Kind::Ws, point: CancelPoint::MidWriteWithQueuedSibling });
     v
 }
 
@@ -328,6 +332,32 @@ async fn run_cancel(kind: Kind, point: CancelPoint) -> (Bad, u64) {
             }
             h.abort();
             let _ = h.await;
+        }
+        CancelPoint::MidWriteWithQueuedSibling => {
+            peer.ctl().a_to_b.set_credit(Some(10));
+            let big = tokio::spawn(cli.call(7, None, 20_000));
+            memstream::settle().await;
+            let sibling = tokio::spawn(cli.call(1, None, 0));
+            memstream::settle().await;
+            big.abort();
+            let _ = big.await;
+            memstream::settle().await;
+            peer.ctl().a_to_b.set_credit(None);
+            // whatever the client decides about the connection, the sibling must not be left
+            // waiting for ever: it either fails or (if its request went out whole) is answered
+            let reqs = peer.drain_requests().await.unwrap_or_default();
+            if let Some(id) = clients::tag_ids(&reqs).get(&1) {
+                peer.send(&clients::reply(*id)).await;
+            }
+            let r = clients::join_call(sibling).await;
+            if r == Res::Hang {
+                bad.push(("C06:sibling-of-cancelled-call-hangs".into(), format!("{ctx}: a call queued behind a call that was cancelled mid-write never returned")));
+            }
+            if cli.pending() != 0 {
+                bad.push(("C06:pending-residue".into(), format!("{ctx}: {} pending entries after the sibling returned", cli.pending())));
+            }
+            // the connection may legitimately be unusable now (interrupted write): stop here
+            return (bad, 32);
         }
         CancelPoint::AwaitingWriterLock => {
             // a large call stalls in the writer; a second call queues on the writer lock
